@@ -361,3 +361,8 @@ def run(ctx):
         rets = [n_ for n_ in ig.ev_nodes() if n_.id in live and n_.ev["e"] == "ret"]
         ok = bool(inits) and all(ig.dominated_by(r, inits) for r in rets)
         ctx.ob("C04.R5a", L.short(fn), ok, fn.loc, "a block can be returned before its elements are constructed/zeroed")
+
+
+SWEEP = ["concurrent/test_vector.cpp",
+         "concurrent/test_thread_local.cpp",
+         "concurrent/test_object_pool.cpp"]
